@@ -754,6 +754,12 @@ func c17RunJSON(c *Ctx, b []byte) bool {
 			return false
 		}
 		c17MetaCheck(c, mc)
+	case "display":
+		var dc c17DispCase
+		if json.Unmarshal(b, &dc) != nil {
+			return false
+		}
+		c17CheckDisp(c, dc)
 	case "color":
 		var cc c17ColorCase
 		if json.Unmarshal(b, &cc) != nil {
@@ -771,7 +777,7 @@ func c17RunJSON(c *Ctx, b []byte) bool {
 }
 
 func runC17(c *Ctx) {
-	c.Rep.Rule = "bind expressions generated from the key/action grammar (all 17 delimiter forms, arguments biased to the delimiters, '+', ',', ':' and action-looking text) plus a malformed stream of grammar fragments; key names with characters of every UTF-8 length (plain and alt-CHAR) in --bind, --expect, --toggle-sort, unbind(); --color specifications (base schemes, every colour name and spelling, colours, attributes, regular) spread over options file, environment and command line; argument vectors over the modelled option vocabulary with =/separate/optional value forms, layered over $FZF_DEFAULT_OPTS and an options file; whole-vocabulary totality fuzz. Non-trivial = parse succeeded and (bind) at least one action argument / (options) at least two options given; distinct by JSON of the case"
+	c.Rep.Rule = "bind expressions generated from the key/action grammar (all 17 delimiter forms, arguments biased to the delimiters, '+', ',', ':' and action-looking text) plus a malformed stream of grammar fragments; key names with characters of every UTF-8 length (plain and alt-CHAR) in --bind, --expect, --toggle-sort, unbind(); --color specifications (base schemes, every colour name and spelling, colours, attributes, regular) spread over options file, environment and command line; argument vectors over the modelled option vocabulary with =/separate/optional value forms, layered over $FZF_DEFAULT_OPTS and an options file; display-mode cases (--tmux / --no-tmux / --height / --no-height dealt over three non-empty sources, padded so that word positions cross; a sample run through the fzf binary inside a stub tmux); values measured in columns (--marker-multi-line, --pointer, --marker, --scrollbar, --ellipsis) built from grapheme clusters of every display width with zero-width clusters in front, in the middle and at the end; whole-vocabulary totality fuzz (one value in seven from the same cluster alphabet). Non-trivial = parse succeeded and (bind) at least one action argument / (options) at least two options given; distinct by JSON of the case"
 	if c.Replay != "" {
 		if b, err := os.ReadFile(c.Replay); err == nil {
 			c17RunJSON(c, b)
@@ -805,6 +811,8 @@ func runC17(c *Ctx) {
 		c17Run(c, c17Case{Kind: "mask", Strs: []string{c17GenStr(r)}})
 	}
 	c17RunOpts(c)
+	c17RunMode(c)
+	c17RunDisp(c)
 	c17RunMeta(c)
 	c17RunColor(c)
 }
